@@ -12,7 +12,8 @@ from ..runner import Divergence, Driver, Env, Outcome, Violation, diff_streams
 THEOREMS = ["C10_resolved_events_match", "C10_init_sound", "C10_got_matches", "C10_wait_outcomes", "C10_waiter_records_request",
             "C10_no_rematch", "C10_timed_out_not_resolved", "C10_replay_once_per_resolution", "C10_second_event_no_replay", "C10_waiter_event_iff_new",
             "C10_timeout_after_resolution_noop", "C10_timeout_marks_and_replays_once", "C10_resume_keeps", "C10_resume_partial",
-            "C10_resume_sound", "C10_refuted_resume_requirements", "C10_resume_timeout"]
+            "C10_resume_sound", "C10_refuted_resume_requirements", "C10_resume_timeout",
+            "C10_default_ids_distinct", "C10_default_wait_gets_own_reply", "C10_default_wait_registers_own"]
 EXPLANATION = (
     "Lean: invariant over every tick sequence (any schedule, any step results): resolved waiters — live and in every running "
     "snapshot — hold an event of the awaited type meeting the recorded requirement; wait_for_event hands the step exactly that "
@@ -23,11 +24,16 @@ EXPLANATION = (
     "wait_for_event coroutine on generated snapshots), serde ops (real to_serialized -> JSON -> from_serialized twice), "
     "reducer/runner correspondence. Search: live wait workflows (duplicate, non-matching, early/late responses, timeouts, 1..2 "
     "workers) incl. snapshot -> JSON -> resume at random points; per-wait completion counts, delivered event vs request, "
-    "reducer-level waiter facts on the real ticks."
+    "reducer-level waiter facts on the real ticks. Default waiter ids: a naming table (type, requirement) -> id, accepted by "
+    "the driver only if injective; theorems: different requests get different ids, a default-id wait returns an event that "
+    "satisfies ITS request and otherwise registers exactly its request; WE ops without waiter id on the real coroutine; live "
+    "family wait_multi (waits of one step that differ only in a requirement value) with per-wait rules stated from the step "
+    "bodies' requests (returned event, announced once, waits before it returns, resumes with its reply)."
 )
 ASSUMPTIONS = suite.ENGINE_ASSUMPTIONS + [
     "requirements are modelled as one optional equality on the field k (the code compares arbitrary dict items with getattr/==)",
-    "a waiter id identifies one wait of one step; two concurrent invocations of a step sharing the default waiter id overwrite each other's waiter (outside the property: it states 'at most once')",
+    "a waiter id identifies one wait of one step; two concurrent invocations of a step that make the SAME request (same explicit id, or no id and the same type and requirements) share one waiter and overwrite each other's (outside the property: it states 'at most once'); the per-wait rules skip such shared labels",
+    "default waiter names (text of the awaited class and of the requirements dict) are abstracted to numbers by a table built in harness/engine/enc.py from the documented format for requirement values 0..5; the model takes the table as given and requires it to be injective",
 ]
 
 
@@ -43,12 +49,79 @@ def _we_corr(env: Env, out: Outcome, n: int) -> None:
     rng = random.Random(env.rng.randrange(1 << 30))
     g = direct.Gen(rng)
     ic = object.__new__(InternalContext)
-    ops, exp = [], []
-    for _ in range(n):
+
+    def registered_id(ty: int, req: dict) -> str:
+        """the id under which the implementation itself registers wait_for_event(T<ty>, requirements=req) without waiter_id"""
+        tok = R.StepWorkerStateContextVar.set(R.StepWorkerContext(
+            state=R.StepWorkerState(step_name="s01", collected_events={}, collected_waiters=[]), returns=R.Returns(return_values=[])))
+        try:
+            coro = InternalContext.wait_for_event(ic, ET.TYPES[ty], requirements=req or None, timeout=None)
+            try:
+                coro.send(None)
+                coro.close()
+            except R.WaitingForEvent as w:
+                return w.add.waiter_id
+            except BaseException:  # noqa: BLE001
+                pass
+            return "?"
+        finally:
+            R.StepWorkerStateContextVar.reset(tok)
+
+    # the naming of default waiter ids the model works with (harness/engine/enc.py: numbered from the documented format)
+    ops, exp = [enc.autoids_line()], [f"ok {len(enc.auto_table())}"]
+    n_auto = max(n // 4, 1)
+    auto_made: set = set()
+    if env.replay is not None and isinstance(env.replay.get("payload", {}).get("case"), dict) and "we_default" in env.replay["payload"]["case"]:
+        # replay of a default-id case: earlier waits of the step (registered by the implementation itself, resolved ones holding
+        # an event that satisfies their request), then the call
+        c = env.replay["payload"]["case"]["we_default"]
+        ws = []
+        for x in c["snapshot"]:
+            req = {} if x["k"] is None else {"k": x["k"]}
+            ws.append(R.StepWorkerWaiter(waiter_id=registered_id(x["ty"], req), event=ET.mk(5, 1, None), waiting_for_event=ET.TYPES[x["ty"]],
+                                         requirements=req, has_requirements=bool(req),
+                                         resolved_event=None if x["resolved"] is None else ET.mk(x["ty"], x["resolved"][0], x["resolved"][1]),
+                                         timed_out=x["timed_out"]))
+        tok = R.StepWorkerStateContextVar.set(R.StepWorkerContext(
+            state=R.StepWorkerState(step_name="s01", collected_events={}, collected_waiters=ws), returns=R.Returns(return_values=[])))
+        val = None
+        try:
+            coro = InternalContext.wait_for_event(ic, ET.TYPES[c["ty"]], requirements=None if c["k"] is None else {"k": c["k"]}, timeout=None)
+            try:
+                coro.send(None)
+                coro.close()
+            except StopIteration as si:
+                val = si.value
+            except BaseException:  # noqa: BLE001
+                pass
+        finally:
+            R.StepWorkerStateContextVar.reset(tok)
+        if val is not None and (type(val) is not ET.TYPES[c["ty"]] or (c["k"] is not None and getattr(val, "k", None) != c["k"])):
+            out.violations.append(Violation("C10/delivered_event_mismatch:default_id_snapshot",
+                                            f"wait_for_event(T{c['ty']}, requirements k={c['k']!r}) without waiter_id returned {enc.ev(val)} from the snapshot "
+                                            f"{[(x.waiter_id, x.requirements, None if x.resolved_event is None else enc.ev(x.resolved_event)) for x in ws]}",
+                                            {"we_default": c}))
+    for i in range(n + n_auto):
+        auto = i >= n
+        if i == n:
+            # a second stream for the calls without `waiter_id=` (drawn after the others: the explicit-id stream stays what it was)
+            rng = random.Random(rng.randrange(1 << 30))
+            g = direct.Gen(rng)
         ws = []
         used = set()
         for _i in range(rng.choice([0, 1, 1, 2, 3])):
             w = g.waiter()
+            if auto and rng.random() < 0.75:
+                # an earlier wait of the same step without waiter_id, registered under the id the implementation gave it; it
+                # records its request, and a resolved one holds an event that satisfies that request
+                wty_ = rng.choice([3, 3, 11, 5])
+                w.waiting_for_event = ET.TYPES[wty_]
+                w.requirements = rng.choice([{}, {"k": 1}, {"k": 2}, {"k": 3}])
+                w.has_requirements = bool(w.requirements)
+                w.waiter_id = registered_id(wty_, w.requirements)
+                auto_made.add(w.waiter_id)
+                if w.resolved_event is not None:
+                    w.resolved_event = ET.mk(wty_, getattr(w.resolved_event, "uid", 7), w.requirements.get("k", rng.choice([None, 1, 2])))
             if w.waiter_id in used and rng.random() < 0.8:
                 continue
             used.add(w.waiter_id)
@@ -57,6 +130,11 @@ def _we_corr(env: Env, out: Outcome, n: int) -> None:
         ty = rng.choice([3, 11, 5])
         reqk = rng.choice([None, None, 1, 2])
         tmo = rng.choice([None, 5, 20])
+        if auto:
+            wid = None
+            ty = rng.choice([3, 3, 11, 5])
+            reqk = rng.choice([None, 1, 2, 3])
+        val = None
         wev = ET.mk(2, 777, None) if rng.random() < 0.4 else None
         returns = R.Returns(return_values=[])
         tok = R.StepWorkerStateContextVar.set(R.StepWorkerContext(
@@ -69,6 +147,7 @@ def _we_corr(env: Env, out: Outcome, n: int) -> None:
                 res = "?? suspended"
                 coro.close()
             except StopIteration as si:
+                val = si.value
                 res = "got " + enc.ev(si.value) + " " + enc.lst([enc.res(r) for r in returns.return_values])
             except asyncio.TimeoutError:
                 res = "timeout " + enc.lst([enc.res(r) for r in returns.return_values])
@@ -76,12 +155,24 @@ def _we_corr(env: Env, out: Outcome, n: int) -> None:
                 res = "waiting " + enc.res(w.add) + ("" if not returns.return_values else " ?? " + repr(returns.return_values))
         finally:
             R.StepWorkerStateContextVar.reset(tok)
-        ops.append("WE %s %s %d %s %s %s" % (enc.lst([enc.waiter(w) for w in ws]), enc.waiter_id(wid), ty, enc.opt_ev(wev), enc.num(reqk), enc.num(tmo)))
+        ops.append("WE %s %s %d %s %s %s" % (enc.lst([enc.waiter(w) for w in ws]), "_" if wid is None else enc.waiter_id(wid), ty, enc.opt_ev(wev), enc.num(reqk), enc.num(tmo)))
         exp.append(res)
         out.evaluations += 1
-        out.count("we:" + res.split(" ")[0])
+        out.count(("we_default_id:" if auto else "we:") + res.split(" ")[0])
         if not res.startswith("waiting"):
             out.nontrivial(ops[-1])
+        if auto:
+            # direct statement, default id: among waiters that each hold an event satisfying the request they were registered for,
+            # what the call returns satisfies the request of THIS call
+            if val is not None and (type(val) is not ET.TYPES[ty] or (reqk is not None and getattr(val, "k", None) != reqk)):
+                out.violations.append(Violation("C10/delivered_event_mismatch:default_id_snapshot",
+                                                f"wait_for_event(T{ty}, requirements k={reqk!r}) without waiter_id returned {enc.ev(val)} from the snapshot "
+                                                f"{[(x.waiter_id, x.requirements, None if x.resolved_event is None else enc.ev(x.resolved_event)) for x in ws]}",
+                                                {"we_default": {"snapshot": [{"ty": ET.TY_ID[x.waiting_for_event], "k": (x.requirements or {}).get("k"),
+                                                                              "resolved": None if x.resolved_event is None else [x.resolved_event.uid, x.resolved_event.k],
+                                                                              "timed_out": bool(x.timed_out)} for x in ws if x.waiter_id in auto_made],
+                                                                "ty": ty, "k": reqk, "op": ops[-1]}}))
+            continue
         # direct statement: what the step receives is the resolved event of the waiter with that id
         w0 = next((w for w in ws if w.waiter_id == wid), None)
         if res.startswith("got") and (w0 is None or w0.resolved_event is None or w0.timed_out):
@@ -98,7 +189,7 @@ def _we_corr(env: Env, out: Outcome, n: int) -> None:
         out.divergences.append(d)
 
 
-def _resume_runs(env: Env, out: Outcome, n: int, extra: list[dict]) -> None:
+def _resume_runs(env: Env, out: Outcome, n: int, extra: list[dict], n_multi: int = 0) -> None:
     """run a wait workflow, snapshot (ctx.to_dict -> JSON) at a scheduler-chosen quiet point and stop; resume a fresh
     workflow from the snapshot, deliver the remaining responses; monitor the resumed run"""
     rng = random.Random(env.rng.randrange(1 << 30))
@@ -114,6 +205,12 @@ def _resume_runs(env: Env, out: Outcome, n: int, extra: list[dict]) -> None:
         spec = specgen.gen_wait_spec(rng)
         spec["externals"] = [e for e in spec["externals"] if e["op"] != "snapshot"]
         spec["externals"].append({"op": "snapshot_stop", "after_quiet": rng.choice([0, 0, 1, 1, 2, 3])})
+        jobs.append((spec, rng.randrange(1 << 30), None, None))
+    for _ in range(n_multi):
+        # several default-id waits of one step that differ in the requirement value, snapshot somewhere in between
+        spec = specgen.gen_wait_multi_spec(rng)
+        spec["externals"] = [e for e in spec["externals"] if e["op"] != "snapshot"]
+        spec["externals"].append({"op": "snapshot_stop", "after_quiet": rng.choice([0, 1, 1, 2, 2, 3])})
         jobs.append((spec, rng.randrange(1 << 30), None, None))
     resumed: list = []
     for spec, seed, a1, a2 in jobs:
@@ -154,11 +251,34 @@ def _resume_runs(env: Env, out: Outcome, n: int, extra: list[dict]) -> None:
                 out.violations.append(Violation("C10/waiter_not_repinged_on_resume",
                                                 f"waiters that lost their requirements in the snapshot: {need}; the resumed run first reduced re-pings for {got} only: "
                                                 f"the others stay registered with requirements={{}} and accept any event of the awaited type", case))
-        for v in monitors.mon_c10(tr2, earlier_users=monitors.c10_waiter_users(tr1)):
+        vs2 = monitors.mon_c10(tr2, earlier_users=monitors.c10_waiter_users(tr1))
+        # the rehydration window, seen on the ticks: a waiter that still lacks its requirements (its step's re-pinged replay has
+        # not re-registered it yet) is resolved by an incoming event -- that resolution queues a second replay of its invocation
+        from workflows.runtime.types import ticks as _T2
+        doubled: set = set()
+        for c in tr2.calls:
+            if c.kind == "reduce" and c.after is not None and isinstance(c.tick, _T2.TickAddEvent) and c.caller in ("run", "_process_tick"):
+                for nm, ws in c.before.workers.items():
+                    for w in ws.collected_waiters:
+                        if w.has_requirements and not w.requirements and w.resolved_event is None and not w.timed_out:
+                            now_w = next((x for x in c.after.workers[nm].collected_waiters if x.waiter_id == w.waiter_id), None)
+                            if now_w is not None and now_w.resolved_event is not None:
+                                doubled.add((nm, getattr(w.event, "uid", None)))
+        for v in vs2:
             v.replay = case
-            if v.signature == "C10/resumed_more_than_once" and any(f"'{nm}'" in v.what and f"'{wid}'" in v.what for nm, wid in rehydrated if (nm, wid) in rehydrated):
+            m = getattr(v, "meta", None)
+            if v.signature == "C10/resumed_more_than_once" and (any(f"'{nm}'" in v.what and f"'{wid}'" in v.what for nm, wid in rehydrated if (nm, wid) in rehydrated)
+                                                                 or (m and (m["step"], m["uid"]) in doubled)):
                 # the waiter lost its requirements in the snapshot: the step is re-pinged on resume, and an event that
-                # resolves the waiter before that replay has run queues a second replay (same root as F30)
+                # resolves the waiter before that replay has run queues a second replay (same root as F30); the surplus replay
+                # runs the whole body again, also through the later waits of that invocation
+                v.signature = "C10/rehydration_window_double_replay"
+                if m:
+                    doubled.add((m["step"], m["uid"]))
+        for v in vs2:
+            m = getattr(v, "meta", None)
+            if v.signature == "C10/waiter_event_not_once:per_wait:repeated" and m and (m["step"], m["uid"]) in doubled:
+                # ... waits it had finished (waiter deleted on completion) are registered, and announced, anew
                 v.signature = "C10/rehydration_window_double_replay"
             out.violations.append(v)
         # a waiter whose timeout had fired before the snapshot must still raise after resume
@@ -187,17 +307,24 @@ def _resume_runs(env: Env, out: Outcome, n: int, extra: list[dict]) -> None:
 
 def run(env: Env) -> Outcome:
     out = Outcome()
-    out.rule = ("WE: (snapshot waiters, waiter id, type, requirement, timeout) tuples on the real coroutine; serde: generated broker states; "
+    out.rule = ("WE: (snapshot waiters, waiter id or none, type, requirement, timeout) tuples on the real coroutine; serde: generated broker states; "
                 "live: wait-family and general workflows under random schedules; resume: snapshot_stop at a random quiet point, resume from JSON; "
                 "non-trivial = wait returned/raised, state had waiters or in-progress work, run had waiters at the snapshot; distinct by op line / (spec, schedule)")
     corpus = suite.load_corpus("C10")
+    # the hand-picked cases (and a replayed live case) first; on a generator of their own, so that the generated streams below
+    # do not depend on the corpus
+    import dataclasses
+    suite.live_runs(dataclasses.replace(env, rng=random.Random(0)), out, 0, [monitors.mon_c10], extra_specs=[c for c in corpus if "spec" in c])
     _we_corr(env, out, env.budget(3000, 60000))
     suite.serde_corr(env, out, env.budget(600, 12000))
     suite.direct_corr(env, out, env.budget(1500, 30000))
-    suite.live_runs(env, out, env.budget(50, 1000), [monitors.mon_c10], extra_specs=[c for c in corpus if "spec" in c])
+    suite.live_runs(env, out, env.budget(50, 1000), [monitors.mon_c10])
     suite.live_runs(env, out, env.budget(250, 5000), [monitors.mon_c10], gen_kwargs={"family": "wait"})
-    _resume_runs(env, out, env.budget(120, 2400), corpus)
+    _resume_runs(env, out, env.budget(120, 2400), corpus, n_multi=env.budget(40, 800))
     # waiting steps with a retry policy that fail before / after their wait (the replay continues the retried invocation);
     # last, so that the streams above are what they were before this family existed
     suite.live_runs(env, out, env.budget(80, 1600), [monitors.mon_c10], gen_kwargs={"family": "wait_retry"})
+    # several waits of one step that differ only in the requirement VALUE (default waiter ids): in sequence in one body, and
+    # one per fanned-out item
+    suite.live_runs(env, out, env.budget(80, 1600), [monitors.mon_c10], gen_kwargs={"family": "wait_multi"})
     return out
